@@ -37,16 +37,109 @@ def post_ifnum(a, ret):
     return result_is(ret, tm.TRUE, lambda p: tm.or_(tm.and_(p, want), tm.and_(tm.not_(p), tm.not_(want))))
 
 
+# ---------------------------------------------------------------- false_case: skipping the branch not taken
+IF, ELSE, OR, FI = 1, 2, 3, 4  # tag values given to Tags fields 0..3 (if_tag, else_tag, or_tag, fi_tag) by the stub
+
+
+def false_case_obligation(k):
+    from mir2smt.execmir import Agg, Ref, Cell, Opaque
+
+    def build(sym, bind):
+        def var(name, lo, hi):
+            if sym.consts is not None:
+                return I(sym.consts.get(name, lo))
+            v = tm.V(name)
+            sym.assumes.append(tm.and_(tm.le(I(lo), v), tm.le(v, I(hi))))
+            sym.vars[name] = "i32"
+            return v
+        kinds = [var(f"kind{i}", 9, 10) for i in range(k)]      # an ordinary character or a command reference
+        has_tag = [var(f"has_tag{i}", 0, 1) for i in range(k)]  # get_tag: None or Some
+        tags = [var(f"tag{i}", 1, 5) for i in range(k)]         # if / else / or / fi / some other tag
+        cls = [tm.ite(tm.and_(tm.eq(kinds[i], I(10)), tm.eq(has_tag[i], I(1))), tags[i], I(0)) for i in range(k)]
+        return {"kinds": kinds, "has_tag": has_tag, "tags": tags, "cls": cls}, [Opaque("original token"), Ref(Cell(Opaque("input")))]
+
+    def env_opaque(name):
+        def f(ex, m, args, tys, st, fn, symargs):
+            return [(st, Opaque(name))]
+        return f
+
+    def env_next_token(ex, m, args, tys, st, fn, symargs):
+        i = sum(1 for e in st.log if e[0] == "token")
+        if i >= k:
+            st.log.append(("end_of_input",))
+            return [(st, Enum(1, {1: [Agg([])]}, "Result"))]
+        st.log.append(("token", i))
+        return [(st, Enum(0, {0: [Agg([Enum(symargs["kinds"][i], {10: [Opaque(f"command ref {i}")]}, "Value"), I(i)])]}, "Result"))]
+
+    def env_get_tag(ex, m, args, tys, st, fn, symargs):
+        i = sum(1 for e in st.log if e[0] == "token") - 1
+        cr = ex.deref(args[1])
+        st.log.append(("get_tag", i, getattr(cr, "what", repr(cr))))
+        return [(st, Enum(symargs["has_tag"][i], {1: [Agg([symargs["tags"][i]])]}, "Option"))]
+
+    def env_component(ex, m, args, tys, st, fn, symargs):
+        return [(st, Ref(Cell(Agg([Opaque("branches"), Agg([Agg([I(IF)]), Agg([I(ELSE)]), Agg([I(OR)]), Agg([I(FI)])])]))))]
+
+    def env_push_branch(ex, m, args, tys, st, fn, symargs):
+        st.log.append(("push_branch", args[1].fields[1].tag))
+        return [(st, Agg([]))]
+
+    def post(a, ret, st):
+        cls = a["cls"]
+        consumed = sum(1 for e in st.log if e[0] == "token")
+        pushes = [e for e in st.log if e[0] == "push_branch"]
+        # every command reference is looked up with its own payload
+        for e in st.log:
+            if e[0] == "get_tag" and e[2] != f"command ref {e[1]}":
+                return tm.FALSE
+        depth = I(0)
+        stops = []   # stops[i]: the scan ends at token i
+        elses = []
+        for i in range(k):
+            is_else = tm.and_(tm.eq(cls[i], I(ELSE)), tm.eq(depth, I(0)))
+            is_fi = tm.and_(tm.eq(cls[i], I(FI)), tm.eq(depth, I(0)))
+            stops.append(tm.or_(is_else, is_fi))
+            elses.append(is_else)
+            depth = tm.add(depth, tm.ite(tm.eq(cls[i], I(IF)), I(1), tm.ite(tm.eq(cls[i], I(FI)), I(-1), I(0))))
+        if ret.tag.val == 1:
+            return tm.and_(tm.B(consumed == k and st.log[-1] == ("end_of_input",) and not pushes), *[tm.not_(s) for s in stops])
+        if consumed == 0:
+            return tm.FALSE
+        i = consumed - 1
+        ok = tm.and_(stops[i], *[tm.not_(s) for s in stops[:i]])
+        if pushes:
+            # an \\else at depth 0: the else-branch is entered (BranchKind::Else has discriminant 1 in source order)
+            return tm.and_(ok, elses[i], tm.B(len(pushes) == 1))
+        return tm.and_(ok, tm.not_(elses[i]))
+
+    return dict(engine="B", name=f"c07_false_case_skips_{k}_tokens", crates=["texlang-stdlib", "texlang"], fn=("texlang-stdlib", "false_case", None, None),
+                args=[], build_args=build, unroll=k + 3, post=post, post_state=True,
+                env_models=[(r"^ExpansionInput::<S>::unexpanded$", env_opaque("stream")),
+                            (r"^<UnexpandedStream<S> as (?:[a-z_]+::)*TokenStream>::next_or_err::<.*>$", env_next_token),
+                            (r"^<ExpansionInput<S> as (?:[a-z_]+::)*TokenStream>::commands_map$", env_opaque("commands map")),
+                            (r"^(?:[a-z_]+::)*Map::<S>::get_tag$", env_get_tag),
+                            (r"^<ExpansionInput<S> as (?:[a-z_]+::)*TokenStream>::state$", env_opaque("state")),
+                            (r"^<S as (?:[a-z_]+::)*HasComponent<conditional::Component>>::component$", env_component),
+                            (r"^push_branch::<S>$", env_push_branch)],
+                witnesses=[("nested conditional skipped, then \\else", lambda a: tm.and_(tm.eq(a["cls"][0], I(IF)), tm.eq(a["cls"][1], I(ELSE)), tm.eq(a["cls"][2], I(FI)), tm.eq(a["cls"][3], I(ELSE)))),
+                           ("\\fi closes the conditional", lambda a: tm.and_(tm.eq(a["cls"][0], I(0)), tm.eq(a["cls"][1], I(FI))))] if k >= 4 else [],
+                funcs=["texlang_stdlib::conditional::false_case (generic MIR; token stream, command-map tag lookup, component access and push_branch replaced by stubs)"],
+                bound=(f"a stream of {k} tokens, each an ordinary character or a command reference whose tag is arbitrary (\\if.., \\else, \\or, \\fi, another tag, or none): "
+                       "skipping consumes exactly the tokens up to the first \\else or \\fi at nesting depth 0 (nested conditionals, whatever they contain, are skipped whole), "
+                       "enters the else-branch exactly in the \\else case, and fails only at the end of the input"))
+
+
 PROP = {
     "level_text": 'Only the \\ifodd condition is decided (every i32, scanner stubbed). Branch skipping, \\ifcase/\\or/\\else/\\fi, \\ifnum, nesting and \\expandafter/\\noexpand are VM-bound and NOT decided.',
     "title": "Conditionals deliver only the selected branch; \\expandafter acts on one token",
     "explanation": "Engine B decides the condition of \\ifodd for every 32-bit operand from the MIR of IfOdd::evaluate, with the integer scanner replaced by a stub that returns an arbitrary i32.",
     "outside": [
-        "branch skipping (false_case, \\or, \\else, \\fi over token streams), \\ifcase, nesting, \\let-aliased conditionals, \\expandafter / \\noexpand: these run on the VM's token streams, whose construction (interner, command maps, tracer: std HashMap/BTreeMap) is beyond what CBMC finished in this sandbox - NOT decided here",
+        "skipping is decided at driver level only (false_case with the token stream and tag lookup stubbed, <= 5 tokens); \\ifcase/\\or skipping, the \\else/\\fi primitives' branch stack, \\let-aliased conditionals (the tag lookup is a stub), \\expandafter / \\noexpand: NOT decided (VM-bound)",
         "\\ifnum: scanning of the two numbers and of the relation character (<, =, >) is stubbed; only the comparison is decided",
     ],
     "assumptions": ["i32::parse(input) is stubbed: returns Ok(n) for an arbitrary i32 n (its own behaviour is the subject of C06)"],
     "obligations": [
+        false_case_obligation(4), false_case_obligation(5),
         dict(engine="B", name="c07_ifnum_condition", crates=["texlang-stdlib"], fn=("texlang-stdlib", "evaluate", "IfNum", "Condition"),
              args=[("input", "opaque ExpansionInput")],
              env_models=[(r"^<\(i32, (?:[a-z_]+::)*Ordering, i32\) as (?:[a-z_]+::)*Parsable>::parse::<.*>$", env_parse_relation)],
